@@ -510,6 +510,93 @@ pub fn eval_many(c: &Many) -> Vec<Finding> {
 }
 
 // ------------------------------------------------------------------------------------------
+// every command with short payloads of every value class on one channel, against traffic on
+// another: a complete message of any command on channel A - whatever its payload says - does not
+// make the receiver lose, delay or alter the messages of channel B or the next message of A.
+// The receiver hands complete messages to its caller; it has no business interpreting them.
+pub const CROSS_PAYLOADS: [&[u8]; 14] = [&[], &[0], &[1], &[2], &[5], &[10], &[11], &[0x7f], &[0xff], &[1, 0], &[0, 1], &[10, 10, 10, 10], &[1, 2, 3, 4, 5, 6, 7, 8], &[0; 17]];
+#[derive(Clone, Debug, serde::Serialize, serde::Deserialize, Hash)]
+pub struct Cross {
+    pub cmd: usize,
+    pub payload: usize,
+    /// 0: A's message, then B's whole message, then A again; 1: B's first packet, A's message, B's
+    /// remaining packets, then A again; 2: A's message twice, then B; 3: as 0 with B = the broadcast channel
+    pub order: u8,
+}
+pub fn cross_cases() -> Vec<Cross> {
+    let mut v = vec![];
+    for cmd in 0..9 {
+        for payload in 0..CROSS_PAYLOADS.len() {
+            for order in 0..4u8 {
+                v.push(Cross { cmd, payload, order });
+            }
+        }
+    }
+    v
+}
+pub fn eval_cross(c: &Cross) -> Vec<Finding> {
+    let case = json!({"cross_command": c});
+    let (cmd, byte) = COMMANDS[c.cmd % 9];
+    let a_ch = 0x0a0a_0001u32;
+    let b_ch = if c.order == 3 { 0xffff_ffffu32 } else { 0x0b0b_0002u32 };
+    let a_payload = CROSS_PAYLOADS[c.payload % CROSS_PAYLOADS.len()].to_vec();
+    let b_payload: Vec<u8> = (0..100u8).collect();
+    let a2_payload: Vec<u8> = (0..70u8).map(|i| i ^ 0x5a).collect();
+    let r = par::catch(|| -> Result<Option<String>, String> {
+        let a = send(a_ch, cmd, &a_payload)?.ok_or("harness: sender refused a short message")?;
+        let b = send(b_ch, Command::Ping, &b_payload)?.ok_or("harness: sender refused a short message")?;
+        let a2 = send(a_ch, Command::Cbor, &a2_payload)?.ok_or("harness: sender refused a short message")?;
+        let pk = |w: &[u8]| -> Vec<Vec<u8>> { w.chunks(64).map(|p| p.to_vec()).collect() };
+        let (ap, bp, a2p) = (pk(&a), pk(&b), pk(&a2));
+        // (packet, what must be delivered by it)
+        let mut seq: Vec<(Vec<u8>, Option<(u32, u8, Vec<u8>)>)> = vec![];
+        let whole = |ps: &[Vec<u8>], want: (u32, u8, Vec<u8>), seq: &mut Vec<(Vec<u8>, Option<(u32, u8, Vec<u8>)>)>| {
+            for (i, p) in ps.iter().enumerate() {
+                seq.push((p.clone(), (i + 1 == ps.len()).then(|| want.clone())));
+            }
+        };
+        let a_want = (a_ch, byte | 0x80, a_payload.clone());
+        let b_want = (b_ch, 0x81u8, b_payload.clone());
+        let a2_want = (a_ch, 0x90u8, a2_payload.clone());
+        match c.order {
+            1 => {
+                seq.push((bp[0].clone(), None));
+                whole(&ap, a_want.clone(), &mut seq);
+                for (i, p) in bp.iter().enumerate().skip(1) {
+                    seq.push((p.clone(), (i + 1 == bp.len()).then(|| b_want.clone())));
+                }
+                whole(&a2p, a2_want.clone(), &mut seq);
+            }
+            2 => {
+                whole(&ap, a_want.clone(), &mut seq);
+                whole(&ap, a_want.clone(), &mut seq);
+                whole(&bp, b_want.clone(), &mut seq);
+                whole(&a2p, a2_want.clone(), &mut seq);
+            }
+            _ => {
+                whole(&ap, a_want.clone(), &mut seq);
+                whole(&bp, b_want.clone(), &mut seq);
+                whole(&a2p, a2_want.clone(), &mut seq);
+            }
+        }
+        let mut h = ChannelHandler::default();
+        for (i, (p, want)) in seq.iter().enumerate() {
+            let got = h.handle_packet(p).map(|m| (m.channel, m.command.encode(), m.payload.clone()));
+            if got != *want {
+                return Ok(Some(format!("packet {i} of the sequence: delivered {:?}, expected {:?} (after a complete {:#04x} message with payload {:02x?} on channel {a_ch:#x})", got.as_ref().map(|g| (g.0, g.1, g.2.len())), want.as_ref().map(|g| (g.0, g.1, g.2.len())), byte | 0x80, a_payload)));
+            }
+        }
+        Ok(None)
+    });
+    match r {
+        Err(p) => vec![Finding::new(format!("cross-command/kind=panic/site={}", par::panic_site(&p)), p, case)],
+        Ok(Err(e)) => vec![Finding::new("cross-command/kind=harness", e, case)],
+        Ok(Ok(Some(d))) => vec![Finding::new("cross-command/kind=message-lost-or-altered", d, case)],
+        Ok(Ok(None)) => vec![],
+    }
+}
+
+// ------------------------------------------------------------------------------------------
 // a writer that fails: whatever `send` returns, it never reports success for a message whose
 // packets were not all handed to the writer, in order.
 
@@ -710,6 +797,12 @@ pub fn run(ctx: &Ctx) -> Result<Run, String> {
         st.findings_from(eval_many(c));
     });
     stats.merge(mc_stats);
+    let cc = cross_cases();
+    let cc_stats = par::sweep_cases(&cc, ctx.threads, |c, st| {
+        st.case(c, true, "cross-command");
+        st.findings_from(eval_cross(c));
+    });
+    stats.merge(cc_stats);
     let mut fw: Vec<(usize, usize, u8, bool)> = vec![];
     for len in [0usize, 57, 58, 116, 117, 300, 7608] {
         let packets = if len <= 57 { 1 } else { 1 + (len - 57).div_ceil(59) };
@@ -739,7 +832,7 @@ pub fn run(ctx: &Ctx) -> Result<Run, String> {
     stats.samples.push(json!({"starve": sv[sv.len() / 2]}));
     let mut run = Run::from_stats(
         "model_checking",
-        "single channel: every payload length 0..7700 and 65535/65536/70000 (all 9 commands x 4 channel ids at the boundary lengths, rotating command/channel and 3 content patterns elsewhere): written into a Vec and into a writer that only implements write/flush (same bytes); written bytes parsed by the harness (64-byte packets, header layout, sequence numbers, zero padding, packet count) and fed to a fresh receiver, and the message the receiver delivers is sent again (must be written as the same packets); interleavings: stateright BFS whose state is the real ChannelHandler (cloned via the verif hook) plus the next-packet index per stream, over all combinations of 2, 3 and 4 concurrently transmitting channels with payload lengths from {0,57,58,116,117,175,234} (1..4 packets; thorough adds streams of 5 and 6 packets for 2 and 3 channels), channels sending two messages back to back, and one stray continuation packet for an idle channel at any point; deduplicated on (indices, hook snapshot); run twice with different thread counts; cross-checked by a hook-free enumeration of all complete interleavings for 2 and 3 channels; many channels: 1..300 (thorough 4096) channels each start a two-packet message (the first optionally twice) and then complete, in channel order and in reverse – every message is delivered; failing writers: a write call fails at any of the first eight / last two packets with five error kinds, once or from then on – success is never reported for a message the writer did not receive in full and in order; starvation: a 3-packet message held back after its first / second packet while other channels send every number of packets 0..300 (thorough 0..1100) and 1024, 2048, 4096, 10000 as whole messages in three traffic shapes (maximal messages, two channels alternating single packets, 2-packet messages), each of which must be delivered too",
+        "single channel: every payload length 0..7700 and 65535/65536/70000 (all 9 commands x 4 channel ids at the boundary lengths, rotating command/channel and 3 content patterns elsewhere): written into a Vec and into a writer that only implements write/flush (same bytes); written bytes parsed by the harness (64-byte packets, header layout, sequence numbers, zero padding, packet count) and fed to a fresh receiver, and the message the receiver delivers is sent again (must be written as the same packets); interleavings: stateright BFS whose state is the real ChannelHandler (cloned via the verif hook) plus the next-packet index per stream, over all combinations of 2, 3 and 4 concurrently transmitting channels with payload lengths from {0,57,58,116,117,175,234} (1..4 packets; thorough adds streams of 5 and 6 packets for 2 and 3 channels), channels sending two messages back to back, and one stray continuation packet for an idle channel at any point; deduplicated on (indices, hook snapshot); run twice with different thread counts; cross-checked by a hook-free enumeration of all complete interleavings for 2 and 3 channels; many channels: 1..300 (thorough 4096) channels each start a two-packet message (the first optionally twice) and then complete, in channel order and in reverse – every message is delivered; commands across channels: a complete message of each of the 9 commands with 14 short payloads (empty, single bytes 0/1/2/5/10/11/0x7f/0xff, pairs, 4, 8 and 17 bytes) on one channel before, inside or twice before a two-packet message of another channel (also the broadcast channel), followed by a further message of the first channel - every message is delivered, unaltered, by its own last packet; failing writers: a write call fails at any of the first eight / last two packets with five error kinds, once or from then on – success is never reported for a message the writer did not receive in full and in order; starvation: a 3-packet message held back after its first / second packet while other channels send every number of packets 0..300 (thorough 0..1100) and 1024, 2048, 4096, 10000 as whole messages in three traffic shapes (maximal messages, two channels alternating single packets, 2-packet messages), each of which must be delivered too",
         true,
         stats,
     );
@@ -754,6 +847,10 @@ pub fn replay(_ctx: &Ctx, case: &Value) -> Result<Vec<Finding>, String> {
     if let Some(m) = case.get("many_channels") {
         let c: Many = serde_json::from_value(m.clone()).map_err(|e| format!("bad C16 case: {e}"))?;
         return Ok(eval_many(&c));
+    }
+    if let Some(m) = case.get("cross_command") {
+        let c: Cross = serde_json::from_value(m.clone()).map_err(|e| format!("bad C16 case: {e}"))?;
+        return Ok(eval_cross(&c));
     }
     if let Some(f) = case.get("failing_writer") {
         return Ok(eval_failing_writer(f["len"].as_u64().unwrap_or(0) as usize, f["fail_at"].as_u64().unwrap_or(0) as usize, f["kind"].as_u64().unwrap_or(0) as u8, f["once"].as_bool().unwrap_or(true)));
